@@ -572,9 +572,12 @@ class SamplingMethod(DirectMethod):
 
             # Grid for B-spline
             self.xi = ca.vec(DM(self.time_grid(0, 1, self.N))).T
-            if isinstance(self.time_grid, FreeGrid) and (stage.parameters['bspline'] or stage.variables['bspline']):
-                # the knots above are the (uniform) normalized nodes, not the free control grid
-                raise Exception("grid='bspline' parameters/variables are not supported on a FreeGrid")
+            if isinstance(self.time_grid, FreeGrid):
+                # the knots above are the (uniform) normalized nodes, not the free control grid: only splines that are
+                # defined interval by interval (order 0 and 1, no derivatives) are the same function on both
+                for s in list(stage.parameters['bspline'])+list(stage.variables['bspline']):
+                    if stage._catalog[s]["order"]>=2 or stage._signals[s].derivative is not None:
+                        raise Exception("grid='bspline' parameters/variables of order>=2, and derivatives of bspline signals, are not supported on a FreeGrid")
 
             # Parameters needed before variables because of self.T = self.eval(stage, stage._T)
             self.add_parameter(stage, opti)
